@@ -3,7 +3,7 @@ import gen_prog
 import e2e
 import vlib
 
-BIASES = [None, None, None, "overwrite-loop", "two-loops", "loops-in-branches"]
+BIASES = [None, None, None, "overwrite-loop", "two-loops", "loops-in-branches", "chain-loop", "chain-loop"]
 
 # minimal regression programs (witnesses of repaired defects and of open findings); run first
 CORPUS = [
@@ -22,6 +22,8 @@ CORPUS = [
     ("swap-second-operand", "int f(int a,int b){ b = a - b; while(a>0){ a = b + b; } }"),
     ("unary-sugar", "int f(int x,int y){ x = y++; y = -x; x++; --y; x = !y; y = sizeof(x); +x; }"),
     ("dowhile", "int f(int x,int y){ do { x = x * y; } while (x < y); }"),
+    ("rotation-4", "int f(int c0,int c1,int c2,int t){ while (t > 0) { t = c2; c2 = c1; c1 = c0; c0 = t + t; } }"),
+    ("backward-chain-for", "int f(int a,int b,int c,int d,int t,int i,int n){ for (i = 0; i < n; i++) { if (t > 0) { d = c * a; } else { d = b; } if (t > 1) { c = b + b; } else { c = a; } b = a + a; } }"),
 ]
 
 
